@@ -482,7 +482,7 @@ func (p *ClientProcessor) Clean(parser *Parser) {
 //
 //go:norace
 func (p *ClientProcessor) Close(parser *Parser, err error) {
-	p.conn.CloseWithError(err)
+	p.conn.closeByConn(parser.Conn, err)
 	p.Clean(parser)
 }
 
